@@ -1386,3 +1386,130 @@ def rt_c12(tier="quick", first_only=False, count=None):
     if count is not None:
         count.append(n)
     return fails
+
+
+# --------------------------------------------------------------------------------------
+# C14: eager == jit == vmap(loop); flatten/unflatten and leaf serialisation round trips (real objects)
+def bijection_zoo():
+    import equinox as eqx
+    import flowjax.bijections as B
+    import jax.random as jr
+
+    k = jr.PRNGKey(0)
+    aff = lambda n_: B.Affine(jnp.arange(n_) * 0.3, jnp.arange(1, n_ + 1) * 0.7)  # noqa: E731
+    zoo = [
+        ("Affine", aff(3), None), ("Loc", B.Loc(jnp.array([0.5, -1.0])), None), ("Scale", B.Scale(jnp.array([0.5, 2.0])), None), ("Exp", B.Exp((2,)), None), ("SoftPlus", B.SoftPlus((2,)), None),
+        ("Tanh", B.Tanh((2,)), None), ("LeakyTanh", B.LeakyTanh(1.5, (3,)), None), ("Identity", B.Identity((2,)), None), ("Flip", B.Flip((3,)), None), ("Permute", B.Permute(jnp.array([2, 0, 1])), None),
+        ("TriangularAffine", B.TriangularAffine(jnp.array([0.1, 0.2, 0.3]), jnp.array([[1.0, 5.0, 5.0], [0.3, 2.0, 5.0], [-0.4, 0.2, 0.5]])), None),
+        ("RationalQuadraticSpline", build_spline_perturbed(4, (-2.0, 3.0), 3), None),
+        ("Planar(leaky)", _perturb(B.Planar(k, dim=3, negative_slope=0.2), 1), None), ("Planar(tanh)", _perturb(B.Planar(k, dim=3), 1), None), ("Planar(cond, leaky)", B.Planar(k, dim=2, cond_dim=2, negative_slope=0.5, width_size=4, depth=1), 2),
+        ("AdditiveCondition", B.AdditiveCondition(lambda c: 0.5 * jnp.sum(c), (2,), (3,)), 3),
+        ("Chain", B.Chain([aff(3), B.Tanh((3,)), B.Permute(jnp.array([1, 2, 0]))]), None), ("Invert(Affine)", B.Invert(aff(2)), None),
+        ("Scan(Affine)", B.Scan(eqx.filter_vmap(B.Affine)(jnp.array([[0.1, 0.2], [0.3, -0.4]]), jnp.array([[1.0, 2.0], [0.5, 1.5]]))), None),
+        ("Vmap(spline)", B.Vmap(eqx.filter_vmap(lambda: build_spline_perturbed(3, (-1.0, 1.0), None), axis_size=3)(), in_axes=eqx.if_array(0)), None),
+        ("Concatenate", B.Concatenate([aff(2), B.Exp((3,))]), None), ("Stack", B.Stack([aff(2), B.Tanh((2,))], axis=-1), None), ("Partial", B.Partial(B.Exp((2,)), jnp.array([0, 2]), (4,)), None),
+        ("Reshape", B.Reshape(aff(4), (2, 2)), None), ("EmbedCondition", B.EmbedCondition(B.AdditiveCondition(lambda c: c.sum(), (2,), (1,)), lambda c: c[:1] * 2, (3,)), 3),
+        ("Coupling", _perturb(B.Coupling(k, transformer=B.Affine(), untransformed_dim=1, dim=3, nn_width=4, nn_depth=1), 2), None),
+        ("MaskedAutoregressive", _perturb(B.MaskedAutoregressive(k, transformer=B.Affine(), dim=3, cond_dim=2, nn_width=4, nn_depth=1), 2), 2),
+    ]
+    try:
+        zoo.append(("BlockAutoregressiveNetwork", B.BlockAutoregressiveNetwork(k, dim=2, depth=1, block_dim=2), None))
+    except Exception:  # noqa: BLE001
+        pass
+    return zoo
+
+
+def _domain_point(name, shape, rng):
+    x = rng.normal(size=shape)
+    return jnp.asarray(x)
+
+
+def rt_c14(tier="quick", first_only=False, count=None, only=None):
+    import equinox as eqx
+    import io
+    import flowjax.distributions as Dm
+    import jax.random as jr
+
+    fails, n = [], 0
+    rng = np.random.default_rng(0)
+    zoo = bijection_zoo()
+    for name, b, cd in zoo:
+        if only and only not in name:
+            continue
+        x = _domain_point(name, b.shape, rng)
+        c = None if cd is None else jnp.asarray(rng.normal(size=(cd,)))
+        for meth in ("transform", "transform_and_log_det", "inverse", "inverse_and_log_det"):
+            if meth.startswith("inverse") and ("tanh)" in name or name in ("Tanh", "BlockAutoregressiveNetwork") and tier == "quick"):
+                continue
+            f = getattr(b, meth)
+            arg = x
+            if meth.startswith("inverse"):
+                try:
+                    arg = b.transform(x, c)
+                except Exception:  # noqa: BLE001
+                    continue
+            n += 1
+            try:
+                eager = f(arg, c)
+            except NotImplementedError:
+                continue
+            try:
+                jitted = eqx.filter_jit(f)(arg, c)
+                again = f(arg, c)
+            except Exception as ex:  # noqa: BLE001
+                fails.append(dict(what=f"{name}.{meth} cannot be traced under jit: {type(ex).__name__}: {str(ex)[:150]}", case=dict(obj=name, method=meth)))
+                continue
+            le, lj, la = (jax.tree_util.tree_leaves(v) for v in (eager, jitted, again))
+            if any(not np.allclose(np.asarray(p), np.asarray(q), rtol=1e-9, atol=1e-12, equal_nan=True) for p, q in zip(le, lj)):
+                fails.append(dict(what=f"{name}.{meth}: jit result differs from eager", case=dict(obj=name, method=meth)))
+            if any(not np.array_equal(np.asarray(p), np.asarray(q), equal_nan=True) for p, q in zip(le, la)):
+                fails.append(dict(what=f"{name}.{meth}: repeated call with the same arguments differs", case=dict(obj=name, method=meth)))
+            # vmap over a batch of inputs vs a Python loop
+            xs = jnp.stack([arg, arg * 0.5 + 0.1, arg * -0.7])
+            if name in ("Exp", "SoftPlus") and meth.startswith("inverse"):
+                xs = jnp.abs(xs) + 0.1
+            try:
+                vm = jax.vmap(lambda v: f(v, c))(xs)
+                loop = [f(v, c) for v in xs]
+                lv = jax.tree_util.tree_leaves(vm)
+                ll = [jnp.stack(z) for z in zip(*[jax.tree_util.tree_leaves(o) for o in loop])]
+                if any(not np.allclose(np.asarray(p), np.asarray(q), rtol=1e-8, atol=1e-10, equal_nan=True) for p, q in zip(lv, ll)):
+                    fails.append(dict(what=f"{name}.{meth}: vmap over inputs differs from a Python loop", case=dict(obj=name, method=meth)))
+            except Exception as ex:  # noqa: BLE001
+                fails.append(dict(what=f"{name}.{meth} cannot be vmapped: {type(ex).__name__}: {str(ex)[:150]}", case=dict(obj=name, method=meth)))
+        # pytree and serialisation round trips
+        n += 1
+        leaves, tdef = jax.tree_util.tree_flatten(b)
+        b2 = jax.tree_util.tree_unflatten(tdef, leaves)
+        buf = io.BytesIO()
+        try:
+            eqx.tree_serialise_leaves(buf, b)
+            buf.seek(0)
+            like = jax.tree_util.tree_map(lambda l: jnp.zeros_like(l) if eqx.is_array(l) else l, b)
+            b3 = eqx.tree_deserialise_leaves(buf, like)
+            for bb, lab in ((b2, "flatten/unflatten"), (b3, "leaf serialisation")):
+                if not np.array_equal(np.asarray(bb.transform(x, c)), np.asarray(b.transform(x, c)), equal_nan=True):
+                    fails.append(dict(what=f"{name}: behaviour changes after {lab}", case=dict(obj=name)))
+        except Exception as ex:  # noqa: BLE001
+            fails.append(dict(what=f"{name}: serialisation failed: {type(ex).__name__}: {str(ex)[:150]}", case=dict(obj=name)))
+        if first_only and fails:
+            return fails
+    # distributions
+    dists = [("Normal", Dm.Normal(jnp.array([0.3, -1.0]), jnp.array([1.7, 0.5])), None), ("StudentT", Dm.StudentT(jnp.array([3.0, 5.0])), None), ("Uniform", Dm.Uniform(jnp.zeros(2), jnp.ones(2) * 2), None)]
+    for name, d, cd in dists:
+        if only and only not in name:
+            continue
+        n += 1
+        key = jr.PRNGKey(1)
+        x = d.sample(key, (3,))
+        for label, fe, fj in (("log_prob", lambda: d.log_prob(x), lambda: eqx.filter_jit(d.log_prob)(x)), ("sample", lambda: d.sample(key, (4,)), lambda: eqx.filter_jit(lambda kk: d.sample(kk, (4,)))(key)),
+                              ("sample_and_log_prob", lambda: d.sample_and_log_prob(key, (2,)), lambda: eqx.filter_jit(lambda kk: d.sample_and_log_prob(kk, (2,)))(key))):
+            try:
+                e_, j_ = fe(), fj()
+                if any(not np.allclose(np.asarray(p), np.asarray(q), rtol=1e-9, atol=1e-12) for p, q in zip(jax.tree_util.tree_leaves(e_), jax.tree_util.tree_leaves(j_))):
+                    fails.append(dict(what=f"{name}.{label}: jit result differs from eager", case=dict(obj=name, method=label)))
+            except Exception as ex:  # noqa: BLE001
+                fails.append(dict(what=f"{name}.{label} cannot be traced under jit: {type(ex).__name__}: {str(ex)[:150]}", case=dict(obj=name, method=label)))
+    if count is not None:
+        count.append(n)
+    return fails
